@@ -72,11 +72,37 @@ func runC17Conc(c Case, tier string, res *CaseResult) {
 			txs[i] = &cp
 		}
 	}
-	// sequential reference
+	// every third member is built like a gas-less call (Config.NoBaseFee, zero gas price)
+	for i, t := range txs {
+		if i%3 == 2 {
+			cp := *t
+			cp.noBaseFee = true
+			txs[i] = &cp
+		}
+	}
+	// when all members are on one fork the host shares ONE block context and chain configuration between the
+	// concurrently running instances (as a node does for the calls it serves against one block)
+	share := sameFork && r.Chance(70)
+	if share {
+		for i, t := range txs {
+			cp := *t
+			cp.env.Number = 0 // (everybody works on the shared context's block)
+			txs[i] = &cp
+		}
+	}
+	// sequential reference: every member alone, with host objects of its own
 	want := make([]string, n)
 	for i, t := range txs {
 		fs, irs := t.run(nil)
 		want[i] = serializeRun(fs, irs)
+	}
+	var shared *h.SharedHost
+	if share {
+		shared = h.NewSharedHost(txs[0].env.Fork)
+		for _, t := range txs {
+			t.shared = shared
+		}
+		res.Count("groups_sharing_host_objects", 1)
 	}
 	// concurrent runs
 	reps := 3
@@ -116,6 +142,11 @@ func runC17Conc(c Case, tier string, res *CaseResult) {
 				d := firstDiff(want[i], got[i])
 				res.Fail(Key("concurrent-differs", diffRule(d)), fmt.Sprintf("execution %d of %d gives a different result when run concurrently with the others than when run alone", i, n), txs[i].desc, d)
 			}
+		}
+	}
+	if shared != nil {
+		if d := shared.Changed(); d != "" {
+			res.Fail(Key("shared-host-object-modified"), "the block context / chain configuration shared between instances was modified by an EVM", txs[0].desc, d)
 		}
 	}
 	res.Max("overlap", int64(maxOverlap))
